@@ -56,6 +56,7 @@ def run(tier, seed):
         else:
             f["cite_fmt"] = {"round": "(%d)", "empty": "[]%.0d", "bare": "%d"}[how]
         recipes.append(dict(r, repeat=True))
+    recipes += [dict(r_, repeat=True) for r_ in ac.curated_many_refs(rng, 2 if q else 6)]
     ac.validate(run, "calls-and-faults", recipes)
     run.extra["fault_points"] = sum(1 for r in recipes if r.get("fault"))
     # generic history fuzzer: live objects used again and again (wrap, query, rotate by 0, edit in place, assemble)
